@@ -102,6 +102,8 @@ type Exec struct {
 	known        map[string]bool
 	env          *EnvState
 	freshDefs    map[string]FreshDef
+	divMemo      map[[2]int][2]*Term
+	edivMemo     map[[2]int][2]*Term
 	model        *Model
 	deadline     time.Time
 	wantWit      bool
@@ -457,7 +459,7 @@ func (w *World) RunPath(wk *Worker, h *Harness, prefix []Decision, startModel ma
 	wk.solver.Reset()
 	ex := &Exec{
 		w: w, wk: wk, tf: tf, solver: wk.solver, harness: h,
-		log: prefix, inNames: map[string]int{}, freshDefs: map[string]FreshDef{},
+		log: prefix, inNames: map[string]int{}, freshDefs: map[string]FreshDef{}, divMemo: map[[2]int][2]*Term{}, edivMemo: map[[2]int][2]*Term{},
 		globals: map[*ssa.Global]*Cell{}, initDone: map[*ssa.Package]bool{},
 		maxInstrs: h.MaxInstrs, unwind: h.Unwind, mapOrder: "insertion",
 		known: w.known,
